@@ -98,12 +98,14 @@ def compile_gen(name, timeout=900, deps=()):
             h.update(hf.read_bytes() if hf.exists() else b'?')
         h.update(str(_static_stamp()).encode())
         hx = h.hexdigest()
-        if vo.exists() and hfile.exists() and hfile.read_text() == hx:
-            return 0, '(cached)'
+        ofile = GEN / f'{name}.out'
+        if vo.exists() and hfile.exists() and hfile.read_text() == hx and ofile.exists():
+            return 0, ofile.read_text()
         if hfile.exists():
             hfile.unlink()
         rc, out = coqc(v, timeout)
         if rc == 0:
+            ofile.write_text(out)
             hfile.write_text(hx)
         return rc, out
 
